@@ -14,11 +14,14 @@ import (
 	"time"
 
 	"github.com/emitter-io/emitter/internal/network/mqtt"
+	"github.com/emitter-io/emitter/internal/security"
 	"github.com/emitter-io/emitter/internal/zverif/vbroker"
 	"github.com/emitter-io/emitter/internal/zverif/vlib"
 )
 
 var (
+	remote *vbroker.Broker
+	sessNow int64
 	b     *vbroker.Broker
 	keys  = map[string]string{}
 	order []string
@@ -43,7 +46,7 @@ func topic(k, rest string) []byte {
 	}
 	ks, ok := keys[k]
 	if !ok {
-		panic("harness: unknown key " + k)
+		ks = "nokey" // a key that was never minted (failed keygen): an invalid key string
 	}
 	return append([]byte(ks), r...)
 }
@@ -52,7 +55,10 @@ func keyStr(k string) string {
 	if k == "-" {
 		return ""
 	}
-	return keys[k]
+	if ks, ok := keys[k]; ok {
+		return ks
+	}
+	return "nokey"
 }
 
 // canonJSON flattens a JSON payload into sorted key=value text (time and message dropped).
@@ -201,9 +207,14 @@ func step(w []string, line string) string {
 			if w[1] == "mqtt" {
 				matcher = "mqtt"
 			}
+			if remote != nil {
+				remote.Close()
+				remote = nil
+			}
 			b = vbroker.New(vbroker.LicenseFor(w[2], uint32(u(w[3])), uint32(u(w[4]))), matcher, "00:00:00:00:00:01", "")
 			keys, order, guids = map[string]string{}, nil, map[string]string{}
-			return strings.Join(w[:5], " ") + fmt.Sprintf(" now=%d", time.Now().Unix()) + "\x00ok"
+			sessNow = time.Now().Unix()
+			return strings.Join(w[:5], " ") + fmt.Sprintf(" now=%d", sessNow) + "\x00ok"
 		case "key":
 			exp, _ := strconv.ParseInt(w[8], 10, 64)
 			tgt := ""
@@ -280,6 +291,70 @@ func step(w []string, line string) string {
 			request(w[1], uint16(u(w[2])), "presence", req)
 			b.Clients[w[1]].Await("puback:")
 			return collect(false, false, "")
+		case "keyban":
+			// keyban <client> <mid> <secretKey> <targetKey> <0|1>
+			request(w[1], uint16(u(w[2])), "keyban", map[string]interface{}{"secret": keyStr(w[3]), "target": keyStr(w[4]), "banned": w[5] == "1"})
+			b.Clients[w[1]].Await("puback:")
+			return collect(false, false, "")
+		case "keygen":
+			// keygen <client> <mid> <parentKey> <channel> <type> <ttl> <newKeyName>
+			ttl, _ := strconv.ParseInt(w[6], 10, 32)
+			request(w[1], uint16(u(w[2])), "keygen", map[string]interface{}{"key": keyStr(w[3]), "channel": string(vlib.UnHex(w[4])),
+				"type": string(vlib.UnHex(w[5])), "ttl": ttl})
+			c := b.Clients[w[1]]
+			c.Await("puback:")
+			b.Settle()
+			// render the response with the minted key decrypted into its fields
+			var out []string
+			for _, p := range c.Take() {
+				if strings.HasPrefix(p, "pub:") {
+					f := strings.SplitN(p, ":", 3)
+					var v map[string]interface{}
+					if json.Unmarshal(vlib.UnHex(f[2]), &v) == nil {
+						if ks, ok := v["key"].(string); ok && ks != "" {
+							keys[w[7]] = ks
+							k, err := b.Cipher.DecryptKey([]byte(ks))
+							if err != nil {
+								out = append(out, "undecryptable-key")
+								continue
+							}
+							path := uint32(k[12])<<16 | uint32(k[13])<<8 | uint32(k[14])
+							hash := uint32(k[16])<<24 | uint32(k[17])<<16 | uint32(k[18])<<8 | uint32(k[19])
+							exp := k.Expires().Unix()
+							if k.Expires().Equal(time.Unix(0, 0)) {
+								exp = 0
+							}
+							out = append(out, fmt.Sprintf("keygen:status=%v:channel=%s:key=%s:master=%d:contract=%d:sign=%d:perms=%d:path=%d:hash=%d:expires=%d",
+								v["status"], vlib.Hex([]byte(fmt.Sprint(v["channel"]))), vlib.Hex([]byte(ks)), k.Master(), k.Contract(), k.Signature(), k.Permissions(), path, hash, exp))
+							continue
+						}
+						out = append(out, fmt.Sprintf("keygen:status=%v", v["status"]))
+						continue
+					}
+				}
+				out = append(out, p)
+			}
+			return w[1] + "<" + strings.Join(out, "|")
+		case "restart":
+			b.Restart()
+			order, guids = nil, map[string]string{}
+			return "ok"
+		case "remote-new":
+			if remote != nil {
+				remote.Close()
+			}
+			remote = vbroker.New(vbroker.LicenseFor(w[1], uint32(u(w[2])), uint32(u(w[3]))), "", "00:00:00:00:00:02", "")
+			return "ok"
+		case "remote-use":
+			// remote-use <key> <channel after the key> <perm>: Service.Authorize on the second broker
+			ch := security.ParseChannel(topic(w[1], w[2]))
+			return strconv.FormatBool(remote.Svc.VerifAuthorize(ch, uint8(u(w[3]))))
+		case "remote-merge":
+			// the second broker receives the first one's full state (periodic gossip)
+			if _, err := remote.Svc.VerifCluster().OnGossip(b.Svc.VerifCluster().VerifStateBytes()); err != nil {
+				return "err"
+			}
+			return "ok"
 		case "cutsend":
 			// cutsend <client> <k> <inner op...>: send the first k bytes of the packet of the inner
 			// op (all of it if k >= its length), then drop the socket
